@@ -53,7 +53,8 @@ def make_rows(rng, g, start, n_periods, shape, step, n_lags, first_k, skip_perio
     return rows
 
 
-def rand_triangle(rng, kinds=("U", "U", "I", "C"), want_gaps=False, late_start=False, break_chain=False):
+def rand_triangle(rng, kinds=("U", "U", "I", "C"), want_gaps=False, late_start=False, break_chain=False,
+                  fields_pool=None):
     """returns (cells, info)"""
     g = rng.choice([1, 3, 3, 6, 12])
     step = rng.choice([s for s in (1, 3, 6, 12) if s % g == 0 or g % s == 0])
@@ -70,8 +71,8 @@ def rand_triangle(rng, kinds=("U", "U", "I", "C"), want_gaps=False, late_start=F
     skip = rng.random() < 0.1
     rows0 = make_rows(rng, g, start, n_periods0, shape0, step, n_lags0, first_k0, skip)
     cells, shapes = [], []
-    fields_pool = [["paid_loss", "reported_loss", "earned_premium"], ["paid_loss", "earned_premium"],
-                   ["reported_loss", "paid_loss"], ["earned_premium"]]
+    fields_pool = fields_pool or [["paid_loss", "reported_loss", "earned_premium"], ["paid_loss", "earned_premium"],
+                                  ["reported_loss", "paid_loss"], ["earned_premium"]]
     for m in metas:
         if same_layout:
             rows, shape = rows0, shape0
@@ -182,105 +183,222 @@ def canon(cells_wire):
     return [canon_cell(c) for c in cells_wire]
 
 
+WITH_EP = [["paid_loss", "reported_loss", "earned_premium"], ["paid_loss", "earned_premium"], ["earned_premium"]]
+NO_EP = [["reported_loss", "paid_loss"], ["paid_loss"], ["open_claims", "reported_claims"]]
+
+
+def gen_case(rng, op, defaults=False, prime=False):
+    """one generated call: dict(tri, cells, info, fn, args, kwargs, req, in_domain, labels).
+    `req` always carries the NOMINAL parameter values (the library's defaults where an option is omitted);
+    with `defaults` options are omitted from the actual call with high probability; `prime` favours inputs
+    that disturb shared state (triangles lacking the static field, calls that raise)."""
+    omit = (lambda: rng.random() < 0.7) if (defaults or prime) else (lambda: False)
+    labels = []
+    if op == "rightTri":
+        cells, info = rand_triangle(rng, break_chain=rng.random() < 0.04)
+        tri = Triangle(cells)
+        kwargs = {}
+        unit, lags, wl = "month", None, None
+        if not omit():
+            unit = rng.choice(["month"] * 10 + ["months", "Month", "day", "days", "timedelta", "weeks"])
+            kwargs["dev_lag_unit"] = unit
+        if unit in ("timedelta", "weeks"):
+            if unit == "weeks" and rng.random() < 0.3:
+                lags, wl = [], []
+                kwargs["dev_lags"] = lags
+        elif not omit():
+            lags, wl = rand_lags(rng, cells, info, unit)
+            kwargs["dev_lags"] = lags
+        req = {"op": op, "lags": wl, "unit": unit}
+        in_domain = not info["broken"] and unit not in ("timedelta", "weeks")
+        labels += [f"rightTri/unit={unit}", "rightTri/lags=" + ("own" if lags is None else "list")]
+        fn, args = make_right_triangle, ()
+    elif op == "rightDiag":
+        cells, info = rand_triangle(rng, break_chain=rng.random() < 0.04)
+        tri = Triangle(cells)
+        kwargs = {}
+        hist = False
+        if not omit():
+            hist = rng.random() < 0.15
+            kwargs["include_historic"] = hist
+        dates = rand_dates(rng, cells, info, hist)
+        req = {"op": op, "dates": [w_date(d) for d in dates], "hist": hist}
+        in_domain = not info["broken"] and not hist
+        labels += [f"rightDiag/hist={hist}"]
+        fn, args = make_right_diagonal, (dates,)
+    elif op == "fill":
+        cells, info = rand_triangle(rng, want_gaps=True)
+        tri = Triangle(cells)
+        comp = compatible_resolutions(cells)
+        n_evals = len({c.evaluation_date for c in cells})
+        kwargs = {}
+        resn, none = None, False
+        if not (omit() and (n_evals > 1 or prime)):
+            r = rng.random()
+            if r < 0.45 and n_evals > 1:
+                resn = None
+            elif r < 0.9 or n_evals == 1:
+                resn = rng.choice(comp)
+            else:
+                resn = rng.choice([1, 2, 3, 4, 5, 6, 12])                        # possibly incompatible
+            if n_evals == 1 and rng.random() < 0.1:
+                resn = None                                                     # domain edge: TypeError
+            kwargs["eval_resolution"] = resn
+        if not omit():
+            none = rng.random() < 0.5
+            kwargs["fill_with_none"] = none
+        req = {"op": op, "res": resn, "none": none}
+        in_domain = not (resn is None and n_evals == 1)
+        labels += ["fill/res=" + ("inferred" if resn is None else "compatible" if resn in comp else "incompatible"),
+                   f"fill/none={none}"]
+        fn, args = fill_forward_gaps, ()
+    else:
+        pool = None
+        if prime and rng.random() < 0.6:
+            pool = NO_EP                                   # the default static field is absent: KeyError in /repo
+        elif defaults:
+            pool = WITH_EP
+        for _ in range(20):
+            cells, info = rand_triangle(rng, late_start=True, fields_pool=pool)
+            n_evals = len({c.evaluation_date for c in cells})
+            if not defaults or n_evals > 1:
+                break
+        tri = Triangle(cells)
+        fields = sorted({k for c in cells for k in c.values})
+        common_fields = [f for f in fields if all(f in c.values for c in cells)]
+        kwargs = {}
+        statics, resn, min_lag = ["earned_premium"], None, 0
+        if not omit():
+            r = rng.random()
+            if r < 0.5 and "earned_premium" in common_fields:
+                statics = ["earned_premium"]
+            elif r < 0.7:
+                statics = []
+            elif r < 0.95:
+                statics = rng.sample(common_fields, rng.randrange(0, len(common_fields) + 1))
+            else:
+                statics = ["no_such_field"]
+            kwargs["static_fields"] = list(statics)
+        if not (omit() and (n_evals > 1 or prime)):
+            resn = None if (rng.random() < 0.4 and n_evals > 1) else rng.choice([1, 1, 2, 3, 3, 6, 12])
+            if n_evals == 1 and rng.random() < 0.1:
+                resn = None
+            kwargs["eval_resolution"] = resn
+        if not omit():
+            min_lag = rng.choice([0, 0, 0, 1, 2, 3, 6, -1, -2, -3, -5, -11, -12])
+            kwargs["min_dev_lag"] = min_lag
+        req = {"op": op, "statics": list(statics), "res": resn, "minLag": min_lag}
+        in_domain = not (resn is None and n_evals == 1) and all(f in common_fields for f in statics)
+        labels += ["backfill/res=" + ("inferred" if resn is None else "explicit"),
+                   "backfill/minLag=" + ("neg" if min_lag < 0 else "zero" if min_lag == 0 else "pos"),
+                   "backfill/statics=" + ("default-arg" if "static_fields" not in kwargs else "explicit")]
+        fn, args = backfill, ()
+    labels.append(f"{op}/omitted-options={len(req) - 1 - len(kwargs) - (1 if op == 'rightDiag' else 0)}")
+    return {"tri": tri, "cells": cells, "info": info, "fn": fn, "args": args, "kwargs": kwargs, "req": req,
+            "in_domain": in_domain, "labels": labels}
+
+
+def accessors(tri):
+    """derived / cached accessors of a triangle, in wire form"""
+    return {"periods": [[w_date(a), w_date(b)] for a, b in tri.periods],
+            "evaluation_dates": [w_date(d) for d in tri.evaluation_dates],
+            "fields": list(tri.fields),
+            "metadata": [common.w_meta(m) for m in tri.metadata],
+            "n_slices": len(tri.slices),
+            "len": len(tri)}
+
+
+def recomputed(tri):
+    cs = tri.cells
+    return {"periods": [[w_date(a), w_date(b)] for a, b in sorted({c.period for c in cs})],
+            "evaluation_dates": [w_date(d) for d in sorted({c.evaluation_date for c in cs})],
+            "fields": sorted({k for c in cs for k in c.values}),
+            "metadata": [common.w_meta(m) for m in sorted({c.metadata for c in cs})],
+            "n_slices": len({c.metadata for c in cs}),
+            "len": len(cs)}
+
+
+def mutate_result(op, case, res):
+    """damage the first call's result in place (the second call must not be affected): reverse the cell
+    list; edit the values dicts of cells that are not the input's own objects (fill_forward_gaps copies by
+    sharing the source cell's dict, so its added cells are left alone)."""
+    own = {id(c) for c in case["tri"].cells}
+    for c in res.cells:
+        if id(c) not in own and op != "fill":
+            for k in list(c.values):
+                c.values[k] = -12345
+            c.values["__scratch__"] = 1
+    res.cells.reverse()
+
+
 def correspondence(ctx):
     rng = ctx.rng
     total = 15000 if ctx.thorough else 400
     plan = [("rightTri", 0.35), ("rightDiag", 0.2), ("fill", 0.25), ("backfill", 0.2)]
+    n_seq = int(total * 0.3)
     reqs, cases = [], []
 
+    def run_case(op, case, stream):
+        tri = case["tri"]
+        snap = w_cells(tri.cells)                    # by value, BEFORE the call
+        acc_before = accessors(tri) if stream == "seq" else None
+        res = call(case["fn"], tri, *case["args"], **case["kwargs"])
+        d = impl_dump(res)
+        req = {**case["req"], "cells": snap, "impl": d.get("ok")}
+        bare = {k: v for k, v in req.items() if k != "impl"}
+        # the observed data is judged against the snapshot taken before the call: the operator must
+        # not modify the input triangle's own cell objects either (shared values dicts!)
+        after = w_cells(tri.cells)
+        if after != snap:
+            changed = [{"before": b, "after": a} for b, a in zip(snap, after) if a != b][:3]
+            ctx.fail(f"{op}: the input triangle's cells were modified in place by the call", bare,
+                     {"changed": changed})
+        if stream == "seq":
+            if res[0] == "ok":
+                out = res[1]
+                if accessors(out) != recomputed(out):
+                    ctx.fail(f"{op}: accessors of the result disagree with its cells", bare,
+                             {"accessors": accessors(out), "recomputed": recomputed(out)})
+                mutate_result(op, case, out)
+                if w_cells(tri.cells) != snap:
+                    ctx.fail(f"{op}: editing the RESULT in place changed the input triangle (aliasing)", bare)
+            if accessors(tri) != acc_before:
+                ctx.fail(f"{op}: cached accessors of the input changed", bare)
+            res2 = call(case["fn"], tri, *case["args"], **case["kwargs"])
+            d2 = impl_dump(res2)
+            if d2 != d:
+                ctx.fail(f"{op}: a second identical call on the same triangle gives a different result", bare,
+                         {"first": d, "second": d2})
+        info = case["info"]
+        for lab in case["labels"]:
+            ctx.count(("seq:" if stream == "seq" else "") + lab)
+        for k in ("slices", "kind", "shape"):
+            ctx.count(f"{op}/{k}={info[k]}")
+        ctx.count(f"{op}/impl=" + ("ok" if "ok" in d else "err"))
+        ctx.case(digest=json.dumps({**bare, "cells": canon(bare["cells"]), "stream": stream}, sort_keys=True),
+                 nontrivial=len(case["cells"]) > 1,
+                 sample={"op": op, "stream": stream, **info, "n_cells": len(case["cells"]),
+                         **{k: v for k, v in bare.items() if k not in ("cells", "op")}})
+        reqs.append(req)
+        cases.append((bare, d, case["in_domain"]))
+
+    # (i) independent cases, every option passed explicitly
     for op, share in plan:
         for _ in range(int(total * share)):
-            if op == "rightTri":
-                cells, info = rand_triangle(rng, break_chain=rng.random() < 0.04)
-                tri = Triangle(cells)
-                unit = rng.choice(["month"] * 10 + ["months", "Month", "day", "days", "timedelta", "weeks"])
-                if unit == "timedelta" or unit == "weeks":
-                    lags, wl = None, None
-                    if unit == "weeks" and rng.random() < 0.3:
-                        lags, wl = [], []
-                else:
-                    lags, wl = rand_lags(rng, cells, info, unit)
-                snap = w_cells(tri.cells)      # by value, BEFORE the call
-                res = call(make_right_triangle, tri, dev_lags=lags, dev_lag_unit=unit)
-                req = {"op": op, "cells": snap, "lags": wl, "unit": unit}
-                in_domain = not info["broken"] and unit not in ("timedelta", "weeks")
-                ctx.count(f"rightTri/unit={unit}")
-                ctx.count("rightTri/lags=" + ("own" if lags is None else "list"))
-            elif op == "rightDiag":
-                cells, info = rand_triangle(rng, break_chain=rng.random() < 0.04)
-                tri = Triangle(cells)
-                hist = rng.random() < 0.15
-                dates = rand_dates(rng, cells, info, hist)
-                snap = w_cells(tri.cells)
-                res = call(make_right_diagonal, tri, dates, include_historic=hist)
-                req = {"op": op, "cells": snap, "dates": [w_date(d) for d in dates], "hist": hist}
-                in_domain = not info["broken"] and not hist
-                ctx.count(f"rightDiag/hist={hist}")
-            elif op == "fill":
-                cells, info = rand_triangle(rng, want_gaps=True)
-                tri = Triangle(cells)
-                comp = compatible_resolutions(cells)
-                n_evals = len({c.evaluation_date for c in cells})
-                r = rng.random()
-                if r < 0.45 and n_evals > 1:
-                    resn = None
-                elif r < 0.9 or n_evals == 1:
-                    resn = rng.choice(comp)
-                else:
-                    resn = rng.choice([1, 2, 3, 4, 5, 6, 12])                        # possibly incompatible
-                if n_evals == 1 and rng.random() < 0.1:
-                    resn = None                                                     # domain edge: TypeError
-                none = rng.random() < 0.5
-                snap = w_cells(tri.cells)
-                res = call(fill_forward_gaps, tri, eval_resolution=resn, fill_with_none=none)
-                req = {"op": op, "cells": snap, "res": resn, "none": none}
-                in_domain = not (resn is None and n_evals == 1)
-                ctx.count("fill/res=" + ("inferred" if resn is None else "compatible" if resn in comp else "incompatible"))
-                ctx.count(f"fill/none={none}")
-            else:
-                cells, info = rand_triangle(rng, late_start=True)
-                tri = Triangle(cells)
-                n_evals = len({c.evaluation_date for c in cells})
-                fields = sorted({k for c in cells for k in c.values})
-                common_fields = [f for f in fields if all(f in c.values for c in cells)]
-                r = rng.random()
-                if r < 0.5 and "earned_premium" in common_fields:
-                    statics = ["earned_premium"]
-                elif r < 0.7:
-                    statics = []
-                elif r < 0.95:
-                    statics = rng.sample(common_fields, rng.randrange(0, len(common_fields) + 1))
-                else:
-                    statics = ["no_such_field"]
-                resn = None if (rng.random() < 0.4 and n_evals > 1) else rng.choice([1, 1, 2, 3, 3, 6, 12])
-                if n_evals == 1 and rng.random() < 0.1:
-                    resn = None
-                min_lag = rng.choice([0, 0, 0, 1, 2, 3, 6, -1, -2, -3, -5, -11, -12])
-                snap = w_cells(tri.cells)
-                res = call(backfill, tri, static_fields=statics, eval_resolution=resn, min_dev_lag=min_lag)
-                req = {"op": op, "cells": snap, "statics": statics, "res": resn, "minLag": min_lag}
-                in_domain = not (resn is None and n_evals == 1) and statics != ["no_such_field"]
-                ctx.count("backfill/res=" + ("inferred" if resn is None else "explicit"))
-                ctx.count("backfill/minLag=" + ("neg" if min_lag < 0 else "zero" if min_lag == 0 else "pos"))
-            d = impl_dump(res)
-            req["impl"] = d.get("ok")
-            # the observed data is judged against the snapshot taken before the call: the operator must
-            # not modify the input triangle's own cell objects either (shared values dicts!)
-            after = w_cells(tri.cells)
-            if after != snap:
-                changed = [{"before": b, "after": a} for b, a in zip(snap, after) if a != b][:3]
-                ctx.fail(f"{op}: the input triangle's cells were modified in place by the call",
-                         {k: v for k, v in req.items() if k != "impl"}, {"changed": changed})
-            for k in ("slices", "kind", "shape"):
-                ctx.count(f"{op}/{k}={info[k]}")
-            ctx.count(f"{op}/impl=" + ("ok" if "ok" in d else "err"))
-            bare = {k: v for k, v in req.items() if k != "impl"}
-            ctx.case(digest=json.dumps({**bare, "cells": canon(bare["cells"])}, sort_keys=True),
-                     nontrivial=len(cells) > 1,
-                     sample={"op": op, **info, "n_cells": len(cells),
-                             **{k: v for k, v in bare.items() if k not in ("cells", "op")}})
-            reqs.append(req)
-            cases.append((bare, d, in_domain))
+            run_case(op, gen_case(rng, op), "main")
+
+    # (ii) SEQUENCES in one process: priming calls of the same and of related operators on other triangles /
+    # other options (incl. triangles lacking the default static field and calls that raise), then the call
+    # under test with DEFAULT arguments where possible, executed twice with the first result damaged in between
+    ops = [o for o, _ in plan]
+    for i in range(n_seq):
+        op = ops[i % 4]
+        for _ in range(rng.randrange(1, 3)):
+            pop = op if rng.random() < 0.7 else rng.choice(ops)
+            pc = gen_case(rng, pop, prime=True)
+            pres = call(pc["fn"], pc["tri"], *pc["args"], **pc["kwargs"])
+            ctx.count(f"seq:prime/{pop}=" + pres[0])
+        run_case(op, gen_case(rng, op, defaults=True), "seq")
 
     outs = common.Driver("drv_c15").run(reqs)
 
@@ -324,7 +442,10 @@ if __name__ == "__main__":
              "empty; units month(s)/day(s)/timedelta/invalid), make_right_diagonal (dates after / inside / before the "
              "data, non-month-end, duplicates; include_historic), fill_forward_gaps (inferred / compatible / "
              "incompatible resolution; fill_with_none), backfill (static field lists incl. a missing field; inferred / "
-             "explicit resolution; minimum lags -12..6)}. distinct = distinct canonical (cells, parameters) dump; "
+             "explicit resolution; minimum lags -12..6)}; plus a SEQUENCE stream (30 %): 1-2 priming calls of the same / a "
+             "related operator on other triangles (incl. ones lacking earned_premium, calls that raise), then the call "
+             "under test with default arguments, run twice on the same triangle with the first result damaged in place "
+             "in between (identical dumps required), accessors of input and output re-read. distinct = distinct canonical (cells, parameters) dump; "
              "non-trivial = more than one observed cell",
         assumptions=["month-aligned triangles from 1996 on (add_months is exact there; D8 concerns dates before 1970)",
                      "fill_forward_gaps / backfill on a single evaluation date need an explicit eval_resolution",
